@@ -5,7 +5,7 @@ prop, k, slug, what, needs = sys.argv[1:6]
 sid = "%s-%s" % (prop, slug)
 d = "/verif/seeded/" + sid
 os.makedirs(d, exist_ok=True)
-src = "/tmp/seed/%s-work/%s" % (prop, k)
+src = os.path.join(os.environ.get("SEED_SRC", "/tmp/seed/%s-work" % prop), k)
 for f in ("patch.diff", "demo.py", "notes.md"):
     shutil.copy(os.path.join(src, f), os.path.join(d, f))
 json.dump({"id": sid, "property": prop, "what": what, "needs": needs,
